@@ -55,9 +55,17 @@ TEXTS = ['a', 'hello world', '', "3'", '30"', "'quoted'", '"M 31" field',
          'a\\b', "5' x 3'"]
 
 
+# labels are quoted strings: commas, brackets, '=', blanks at either end and
+# ONE kind of quote character are the label's own (a label with both kinds
+# of quote cannot be written: CRTF has no escape)
+LABELS = ['lab', 'my label', 'A-1', 'x y z', "3'", '30"', "it's", 'a, b',
+          ' lead', 'trail ', 'a]b', 'a [b]', 'k=v', '"M 31" field', 'über',
+          'hash # tag']
+
+
 def crtf_meta():
     return st.fixed_dictionaries({}, optional={
-        'label': st.sampled_from(['lab', 'my label', 'A-1', 'x y z']),
+        'label': st.sampled_from(LABELS),
         'include': st.sampled_from([True, False]),
         'type': st.sampled_from(['reg', 'ann']),
         'frame': st.sampled_from(['TOPO', 'LSRK', 'BARY']),
@@ -439,7 +447,11 @@ def crtf_render(afile):
                 body = f"text[{pts[0]}, '{s['text']}']"
             props = []
             for k, v in s.get('props', []):
-                props.append(f"{k}='{v}'" if k == 'label' else f'{k}={v}')
+                if k == 'label':
+                    q = '"' if "'" in v else "'"
+                    props.append(f'label={q}{v}{q}')
+                else:
+                    props.append(f'{k}={v}')
             out += pre + body + (', ' + ', '.join(props) if props else '') + '\n'
     return out
 
@@ -584,12 +596,16 @@ def crtf_region(draw, global_coord):
     elif d == 'symbol':
         s['symbol'] = draw(st.sampled_from(SYMBOLS))
     elif d == 'text':
-        s['text'] = draw(st.sampled_from(['hello', 'my text', 'A-1', 'x y']))
+        s['text'] = draw(st.sampled_from(['hello', 'my text', 'A-1', 'x y',
+                                          "3'", '30"', 'a, b', ' lead ']))
     props = []
     if inline is not None:
         props.append(['coord', inline])
     if d != 'text' and draw(st.integers(0, 2)) == 0:
-        props.append(['label', draw(st.sampled_from(['lab', 'my label']))])
+        # a label is a quoted string: what is between the quotes is its own
+        props.append(['label', draw(st.sampled_from(
+            ['lab', 'my label', 'a, b', ' lead', 'trail ', 'x [y]', 'k=v',
+             "it's", '30"', 'coord=ICRS, color=red']))])
     for k, vals in (('color', ['red', 'blue', 'green']), ('linewidth', ['1', '3']),
                     ('linestyle', ['-', '--']), ('frame', ['TOPO', 'BARY']),
                     ('veltype', ['RADIO']), ('symsize', ['2']),
